@@ -2373,24 +2373,44 @@ Proof.
   destruct (view_xfu_mk _ _ _ _ _ _ V W Ev Hp) as (Ne & ->). apply accepted_view; auto.
 Qed.
 
+Lemma view_prefix host p q u : view host p q = Some u -> p <> "*" -> has_prefix "/" p = true.
+Proof.
+  rewrite view_eq. destruct (String.eqb p "*" && is_empty q) eqn:E.
+  { apply andb_true_iff in E as [E _]. apply String.eqb_eq in E. congruence. }
+  destruct (has_prefix "/" p); [reflexivity|]. simpl. discriminate.
+Qed.
+
 Theorem precondition_http rules dflt host q p :
   p <> "*" -> guard_F4 p = false -> enc_slash p = true ->
   (forall r t, In r rules -> In t (r_routes r) -> rmatch (rt_pat t) (segs_of p) = true -> r_setting r = Off) ->
   serve repaired rules dflt host p q = Precondition \/ serve repaired rules dflt host p q = BadRequest \/
-  (dflt = false /\ serve repaired rules dflt host p q = NoRule).
+  (dflt = false /\ serve repaired rules dflt host p q = NoRule /\
+   forall r t, In r rules -> In t (r_routes r) -> rmatch (rt_pat t) (segs_of p) = true -> rt_params t <> []).
 Proof.
   intros Hs G4 Es Hoff. unfold serve. destruct (view host p q) as [u|] eqn:V; [|auto].
   assert (Ev : valid_encoded p = true) by (unfold guard_F4 in G4; apply negb_false_iff in G4; exact G4).
+  pose proof (view_prefix _ _ _ _ V Hs) as Hp.
   destruct (view_http_mk _ _ _ _ V Ev Hs) as (W & Ne & ->).
-  destruct (precondition_view repaired rules dflt host q p Ne Es (or_introl eq_refl) Hoff) as [H|H]; auto.
+  destruct (precondition_view repaired rules dflt host q p Hp Es (or_introl eq_refl) Hoff) as [H|H]; auto.
 Qed.
 
 Theorem precondition_envoy rules dflt host q p :
-  is_empty p = false -> enc_slash p = true ->
+  has_prefix "/" p = true -> enc_slash p = true ->
   (forall r t, In r rules -> In t (r_routes r) -> rmatch (rt_pat t) (segs_of p) = true -> r_setting r = Off) ->
   serve_envoy repaired rules dflt host p q = Precondition \/
-  (dflt = false /\ serve_envoy repaired rules dflt host p q = NoRule).
-Proof. intros Ne Es Hoff. unfold serve_envoy. rewrite view_envoy_mk. apply precondition_view; auto. Qed.
+  (dflt = false /\ serve_envoy repaired rules dflt host p q = NoRule /\
+   forall r t, In r rules -> In t (r_routes r) -> rmatch (rt_pat t) (segs_of p) = true -> rt_params t <> []).
+Proof. intros Hp Es Hoff. unfold serve_envoy. rewrite view_envoy_mk. apply precondition_view; auto. Qed.
+
+(** the three answers are reached: precondition error, "no rule" (an `off` rule with
+    path_params, no default rule), and an accepted request through X-Forwarded-Uri *)
+Example precondition_nonvacuous :
+  serve repaired w_rules_F2 false "h" "/a%2Fb" "" = Precondition /\
+  serve repaired w_rules_F3 false "h" "/api/a%2Fb" "" = NoRule /\
+  serve repaired w_rules_F3 true "h" "/api/a%2Fb" "" = Precondition /\
+  exists up, serve_xfu repaired w_rules_nd false "h" "/zz-own" "/files/a%2fb/c%20d" "x=1" =
+             Accepted "nd" false [("rest", "a%2Fb/c d")] up.
+Proof. splits; try (vm_compute; reflexivity). eexists. vm_compute. reflexivity. Qed.
 
 (** *** X-Forwarded-Uri *)
 
